@@ -180,6 +180,13 @@ def extract(spec, repo, outdir):
     except OSError as e:
         raise ExtractionBreak("cannot read %s: %s" % (path, e))
     ms = list(re.finditer(spec["anchor"], text, re.S))
+    if len(ms) == 0 and spec.get("optional"):
+        # a declaration that only one shape of the source has: the stated fallback text is emitted (and reported) instead
+        emitted = "/* %s: not present in %s; fallback declaration */\n%s\n" % (spec["name"], spec["file"], spec["fallback"])
+        with open(os.path.join(outdir, spec["name"] + ".inc"), "w") as f:
+            f.write(emitted)
+        return {"function": spec["name"], "source": "%s (absent, fallback used)" % spec["file"], "source_sha256": "",
+                "emitted_sha256": hashlib.sha256(emitted.encode()).hexdigest(), "rules": [], "dropped": ["fallback: " + spec["fallback"]]}
     if len(ms) != 1:
         raise ExtractionBreak("%s: anchor /%s/ matches %d times in %s (must be exactly 1)" %
                               (spec["name"], spec["anchor"], len(ms), spec["file"]))
